@@ -165,6 +165,11 @@ def classify_known(case, stage, exc, first_type=None, rendered=None) -> str | No
             if re.search(r"(^|\s)0\.0\.0\.0 0\.0\.0\.0(\s|$)", rendered) and \
                     re.search(r"\d+\.\d+\.\d+\.\d+\s+0\.0\.0\.0(\s|$)", norm):
                 return "ios-addressag-zero-mask"
+        if cls in ("Acl", "acls", "aces") and platform == "asa" and rendered and \
+                any(" ".join(ln.split()) in ("ip access-list extended", "ip access-list standard") for ln in rendered.split("\n")):
+            # ASA headers are read with an optional type word but rendered without it: an ACL *named* extended/standard
+            # ('ip access-list extended extended') renders 'ip access-list extended', which is denied as a missing name
+            return "asa-acl-named-like-type"
         if first_type == "standard":
             return "standard-ace-option-reparse"
     if stage == "call" and isinstance(exc, RecursionError) and cls in ("acls", "aces", "addrgroups"):
@@ -251,6 +256,8 @@ DETERMINISTIC = [
     {"cls": "Ace", "text": "permit 1.2.3.4 addrgroup tcp", "kwargs": {"platform": "ios"}},
     {"cls": "Ace", "text": "permit host 10.0.0.1 any log", "kwargs": {"platform": "ios"}},
     {"cls": "AddressAg", "text": "10.0.0.0/24", "kwargs": {"platform": "asa"}},
+    {"cls": "Acl", "text": "ip access-list extended extended", "kwargs": {"platform": "asa"}},
+    {"cls": "acls", "text": "ip access-list extended standard\n permit ip any any\n", "kwargs": {"platform": "asa"}},
     {"cls": "AddressAg", "text": "17 10.1.0.0/16", "kwargs": {"platform": "asa"}},
     {"cls": "AddressAg", "text": "10.0.0.0 0.0.0.0", "kwargs": {"platform": "ios"}},
     {"cls": "AddrGroup", "text": "object-group network G1\n 10.0.0.0 0.0.0.0", "kwargs": {"platform": "ios"}},
